@@ -35,15 +35,22 @@ class BrentStub:
             import scipy.optimize
 
             return scipy.optimize.brentq(f, a, b, **kw)
-        fa, fb = f(a), f(b)
+        fa, fb = self._scalar(f(a)), self._scalar(f(b))
         if bool(fa * fb > 0):
             raise ValueError("f(a) and f(b) must have different signs")
         x = ctx.real("root")
         ctx.assume(AND(x >= a, x <= b))
-        fx = f(x)
+        fx = self._scalar(f(x))
         ctx.assume(EQ(fx, 0))
         self.calls.append((a, b, x))
         return x
+
+    @staticmethod
+    def _scalar(v):
+        """brentq converts the objective's value with float(): numpy >= 2 (2.5.3 here) refuses arrays of dimension > 0, also 1-element ones"""
+        if isinstance(v, np.ndarray) and v.ndim > 0:
+            raise TypeError("only 0-dimensional arrays can be converted to Python scalars")
+        return v[()] if isinstance(v, np.ndarray) else v
 
 
 class _OptShim:
